@@ -126,7 +126,7 @@ func shortMirrorOnce(c *Ctx, dir string, cuts []int, tag string) (units []*short
 		}
 	}
 	add := func(sig, what string) { viols = append(viols, shortViolation{sig, what}) }
-	for start := 1; start <= 2; start++ {
+	for start := 1; start <= 2 && len(viols) == 0; start++ {
 		if start > 1 {
 			a.Kill()
 			time.Sleep(300 * time.Millisecond)
